@@ -899,7 +899,7 @@ def do_deepcopy(w, d, op, p):
         w.probe("deepcopy_unavailable:" + str((d.qcfg or {}).get("weights")) + ":" + d.frozen)
         return "unavailable"
     n = Dep(op["new"])
-    for a in ("arch", "in_shape", "dtype", "init", "wcls", "quantized", "stamp", "frozen", "calibrated", "restarts"):
+    for a in ("arch", "in_shape", "dtype", "init", "wcls", "quantized", "stamp", "frozen", "calibrated", "restarts", "taint"):
         setattr(n, a, getattr(d, a))
     n.qcfg = copy.deepcopy(d.qcfg)
     n.memo = dict(d.memo)
